@@ -1,4 +1,5 @@
 import Proofs.C51Sums
+import Proofs.C51GenEq
 
 /-!
 # C18 — Rainbow's distributional target conserves probability mass and expected value
@@ -12,6 +13,15 @@ log-probabilities, and the way `learn` combines the 1-step / n-step losses into 
 Every theorem holds for **all** `N ≥ 2`, all `v_min < v_max`, all rational rewards, done flags
 (not only 0/1), discounts, batches and source vectors `p` — in particular `p` is *not* assumed to
 sum to one (the real target distribution is a soft-max clamped from below, so it does not).
+
+Source translation: `harness/py2lean_c51.py` translates `RainbowDQN.__init__` (support, `delta_z`), `_dqn_loss`
+(symbolic execution per batch row with shape / dtype inference: the clamped Bellman shift, `b`, floor / ceil, the
+two sequential masked fix-ups, the row offsets recognised as `i·num_atoms`, the two `index_add_` scatters, the
+greedy selection of the target distribution, the loss) and `learn` (which batch feeds which call, `γ` vs
+`γ ** n_step`, the combination, `+ prior_eps`, the returned indices) from the source text into
+`Gen/C51Gen.lean`; `Proofs/C51GenEq.lean` proves the generated definitions equal to the model and the
+`C18_source_translation_*` theorems at the end restate the property over the generated definitions, so they are
+re-checked against what the code says now.
 -/
 namespace C51
 
@@ -151,5 +161,277 @@ example : projRow ex5 (1/2) exRows 1 = [0, 7/16, 7/16, 11/64, 1/64] := by decide
 example : (projRow ex5 (1/2) exRows 1).sum = 17/16 ∧
     dot (projRow ex5 (1/2) exRows 1) (supportList ex5) = dot exP (tzList ex5 (1/2) exRows[1]) := by decide +kernel
 example : ∀ row ∈ exRows, row.p.length = ex5.N := by decide +kernel
+
+/-! ### the theorems over the definitions generated from the source text (`Gen/C51Gen.lean`)
+
+Inputs of the generated definitions: the attributes `self_v_min/v_max/num_atoms/delta_z/support/gamma/n_step/
+combined_reward/prior_eps`, the row's `reward / done / action / obs / next_obs / idxs`, and the three forward
+passes as opaque per-row functions — pinned BY NAME below (`actor`, `actor_target_q_False`,
+`actor_q_False_log_True`): asking another network, or the same one with other flags, renames a parameter and the
+statements stop elaborating.  `support0` / `delta_z0` are what `__init__` computes, so an agent constructed with
+`(v_min, v_max, num_atoms)` runs `project (delta_z0 …) num_atoms (support0 …) …`. -/
+section source_translation
+
+/-- every generated definition equals its counterpart in the hand-written model -/
+theorem C18_source_translation_equalities (c : Cfg) (g r d b x : Rat) (j : Nat) (p : List Rat) :
+    C51Gen.delta_z0 c.N c.vmax c.vmin = c.delta ∧
+    C51Gen.support0 c.N c.vmax c.vmin = supportList c ∧
+    C51Gen.pos c.delta c.N c.vmax c.vmin r d g (c.z j) = bpos c r d g j ∧
+    C51Gen.scatter0 c.N b x = ((lowUp c.N b).1, x * (((lowUp c.N b).2 : Rat) - b)) ∧
+    C51Gen.scatter1 c.N b x = ((lowUp c.N b).2, x * (b - ((lowUp c.N b).1 : Rat))) ∧
+    C51Gen.project c.delta c.N (supportList c) c.vmax c.vmin r d g p = projOne c g ⟨r, d, p⟩ :=
+  ⟨gen_delta_z0_eq c, gen_support0_eq c, gen_pos_eq c r d g j, gen_scatter0_eq c.N b x, gen_scatter1_eq c.N b x,
+   gen_project_eq c g r d p⟩
+
+/-- the row an agent constructed with `(v_min, v_max, num_atoms)` projects, as the generated code computes it -/
+def genProject (c : Cfg) (g r d : Rat) (p : List Rat) : List Rat :=
+  C51Gen.project (C51Gen.delta_z0 c.N c.vmax c.vmin) c.N (C51Gen.support0 c.N c.vmax c.vmin) c.vmax c.vmin r d g p
+
+theorem genProject_eq (c : Cfg) (g r d : Rat) (p : List Rat) : genProject c g r d p = projOne c g ⟨r, d, p⟩ := by
+  unfold genProject
+  rw [gen_delta_z0_eq, gen_support0_eq, gen_project_eq]
+
+/-- **adjacency, over the generated code**: for every position `b ∈ [0, N-1]` the first `index_add_` writes at
+    an atom `l`, the second at `l + 1`, both inside the support, `l ≤ b ≤ l + 1`, and the two values added are
+    `x·(l + 1 - b)` and `x·(b - l)` — non-negative shares of `x` that sum to `x` -/
+theorem C18_source_translation_adjacent (N : Nat) (hN : 2 ≤ N) (b x : Rat) (h0 : 0 ≤ b) (h1 : b ≤ (N : Rat) - 1) :
+    (C51Gen.scatter1 N b x).1 = (C51Gen.scatter0 N b x).1 + 1 ∧
+    0 ≤ (C51Gen.scatter0 N b x).1 ∧ (C51Gen.scatter1 N b x).1 ≤ (N : Int) - 1 ∧
+    (((C51Gen.scatter0 N b x).1 : Int) : Rat) ≤ b ∧ b ≤ (((C51Gen.scatter1 N b x).1 : Int) : Rat) ∧
+    (C51Gen.scatter0 N b x).2 = x * ((((C51Gen.scatter0 N b x).1 : Int) : Rat) + 1 - b) ∧
+    (C51Gen.scatter1 N b x).2 = x * (b - (((C51Gen.scatter0 N b x).1 : Int) : Rat)) ∧
+    (C51Gen.scatter0 N b x).2 + (C51Gen.scatter1 N b x).2 = x := by
+  obtain ⟨a1, a2, a3, a4, a5⟩ := C18_ul_adjacent N hN b h0 h1
+  rw [gen_scatter0_eq, gen_scatter1_eq]
+  have e : (lowUp N b).2 = (lowUp N b).1 + 1 := by omega
+  refine ⟨e, a2, a3, a4, a5, ?_, ?_, ?_⟩
+  · simp only [e]; push_cast; ring
+  · rfl
+  · simp only [e]; push_cast; ring
+
+/-- the position the generated code computes is in `[0, N-1]` for every reward, done flag, discount and atom,
+    and the clamp on it (repair of the float32 overflow) is the identity over ℚ -/
+theorem C18_source_translation_pos_in_range (c : Cfg) (hc : c.Valid) (r d g : Rat) (j : Nat) :
+    let b := C51Gen.pos c.delta c.N c.vmax c.vmin r d g (c.z j)
+    0 ≤ b ∧ b ≤ (c.N : Rat) - 1 ∧ b = (clamp c.vmin c.vmax (r + (1 - d) * g * c.z j) - c.vmin) / c.delta := by
+  intro b
+  have hb : b = bpos c r d g j := gen_pos_eq c r d g j
+  obtain ⟨e, b0, b1, _⟩ := C18_ul_adjacent_in_loss c hc r d g j
+  rw [hb]
+  exact ⟨b0, b1, e⟩
+
+/-- **mass, over the generated code**: the projected row has the mass of the source distribution -/
+theorem C18_source_translation_mass (c : Cfg) (hc : c.Valid) (g r d : Rat) (p : List Rat) (hp : p.length = c.N) :
+    (genProject c g r d p).sum = p.sum := by
+  rw [genProject_eq]
+  exact mass_projOne c hc.1 g ⟨r, d, p⟩ hp
+
+/-- **mean, over the generated code**: `Σ_k proj_k · z_k = Σ_j p_j · clamp(r + (1-d)·γ·z_j)`; when no shifted
+    atom leaves the support this is `r · mass + (1-d)·γ · Σ_j p_j z_j` (the Bellman shift of the mean) -/
+theorem C18_source_translation_mean (c : Cfg) (hc : c.Valid) (g r d : Rat) (p : List Rat) (hp : p.length = c.N) :
+    dot (genProject c g r d p) (C51Gen.support0 c.N c.vmax c.vmin) =
+      dot p ((List.range c.N).map fun j => clamp c.vmin c.vmax (r + (1 - d) * g * c.z j)) ∧
+    ((∀ j, j < c.N → c.vmin ≤ r + (1 - d) * g * c.z j ∧ r + (1 - d) * g * c.z j ≤ c.vmax) →
+      dot (genProject c g r d p) (C51Gen.support0 c.N c.vmax c.vmin) =
+        r * p.sum + (1 - d) * g * dot p (supportList c)) := by
+  have h1 : dot (genProject c g r d p) (C51Gen.support0 c.N c.vmax c.vmin) =
+      dot p ((List.range c.N).map fun j => clamp c.vmin c.vmax (r + (1 - d) * g * c.z j)) := by
+    rw [genProject_eq, gen_support0_eq]
+    exact mean_projOne c hc g ⟨r, d, p⟩ hp
+  refine ⟨h1, ?_⟩
+  intro hin
+  rw [h1, dot_eq_sum _ _ c.N hp (by simp), dot_eq_sum _ _ c.N hp (by simp [supportList]), sum_getD, hp,
+      Finset.mul_sum, Finset.mul_sum, ← Finset.sum_add_distrib]
+  apply Finset.sum_congr rfl
+  intro j hj
+  have hj' := Finset.mem_range.mp hj
+  rw [getD_map_range _ _ _ hj', getD_supportList c j hj', clamp_id _ _ _ (hin j hj').1 (hin j hj').2]
+  ring
+
+/-- **triangular weights, over the generated code**: atom `k` of the projected row is
+    `Σ_j p_j · Λ(b_j - k)`, `Λ(t) = max 0 (1 - |t|)`, `b_j` the generated position of source atom `j`: each source
+    atom's mass goes to the two atoms next to its shifted position, linearly in the distance, and nowhere else -/
+theorem C18_source_translation_triangular (c : Cfg) (hc : c.Valid) (g r d : Rat) (p : List Rat) (k : Nat)
+    (hk : k < c.N) :
+    (genProject c g r d p).getD k 0 =
+      ∑ j ∈ Finset.range c.N, p.getD j 0 *
+        tri (C51Gen.pos c.delta c.N c.vmax c.vmin r d g ((C51Gen.support0 c.N c.vmax c.vmin).getD j 0) - (k : Rat)) := by
+  rw [genProject_eq, getD_projOne_tri c hc.1 g _ k hk]
+  apply Finset.sum_congr rfl
+  intro j hj
+  rw [gen_support0_eq, getD_supportList c j (Finset.mem_range.mp hj), gen_pos_eq]
+
+/-- **terminal transitions, over the generated code**: with `done = 1` the projected row is the point mass at
+    `clamp(r, v_min, v_max)` carrying the whole source mass, whatever `γ`: atom `k` gets `mass · Λ(β - k)` with
+    `β = (clamp(r) - v_min)/Δ`; its mean is `mass · clamp(r)`; and when `clamp(r)` is the atom `z_m` the row is
+    `mass` at `m` and `0` elsewhere -/
+theorem C18_source_translation_done_point_mass (c : Cfg) (hc : c.Valid) (g r : Rat) (p : List Rat)
+    (hp : p.length = c.N) :
+    let β := (clamp c.vmin c.vmax r - c.vmin) / c.delta
+    (∀ k, k < c.N → (genProject c g r 1 p).getD k 0 = p.sum * tri (β - (k : Rat))) ∧
+    dot (genProject c g r 1 p) (C51Gen.support0 c.N c.vmax c.vmin) = p.sum * clamp c.vmin c.vmax r ∧
+    (∀ m, m < c.N → clamp c.vmin c.vmax r = c.z m →
+      ∀ k, k < c.N → (genProject c g r 1 p).getD k 0 = if k = m then p.sum else 0) := by
+  intro β
+  have hβ : clamp 0 ((c.N : Rat) - 1) β = β := by
+    have := bpos_eq c hc r 1 g 0
+    rw [bpos_done, tz_done] at this
+    exact this
+  have h1 : ∀ k, k < c.N → (genProject c g r 1 p).getD k 0 = p.sum * tri (β - (k : Rat)) := by
+    intro k hk
+    rw [genProject_eq, projOne_done c hc.1 g r p hp k hk, hβ]
+  refine ⟨h1, ?_, ?_⟩
+  · rw [(C18_source_translation_mean c hc g r 1 p hp).1, dot_eq_sum _ _ c.N hp (by simp), sum_getD, hp,
+        Finset.sum_mul]
+    apply Finset.sum_congr rfl
+    intro j hj
+    rw [getD_map_range _ _ _ (Finset.mem_range.mp hj)]
+    congr 2
+    ring
+  · intro m hm hz k hk
+    rw [h1 k hk]
+    have hd := delta_pos c hc
+    have hβm : β = (m : Rat) := by
+      show (clamp c.vmin c.vmax r - c.vmin) / c.delta = (m : Rat)
+      have hne : c.delta ≠ 0 := ne_of_gt hd
+      rw [hz, div_eq_iff hne]; unfold Cfg.z; ring
+    rw [hβm]
+    unfold tri
+    by_cases e : k = m
+    · subst e; simp
+    · rw [if_neg e]
+      have : (1 : Rat) ≤ |(m : Rat) - (k : Rat)| := by
+        rcases Nat.lt_or_gt_of_ne e with hlt | hgt
+        · have : (k : Rat) + 1 ≤ (m : Rat) := by exact_mod_cast hlt
+          rw [abs_of_nonneg (by linarith)]; linarith
+        · have : (m : Rat) + 1 ≤ (k : Rat) := by exact_mod_cast hgt
+          rw [abs_of_nonpos (by linarith)]; linarith
+      rw [max_eq_left (by linarith), mul_zero]
+
+section nets
+variable {Obs : Type} (actor : Obs → List Rat) (actorLog actorT : Obs → List (List Rat))
+
+/-- **which network is asked for what, over the generated code**: the distribution that is projected is the
+    TARGET network's (`q=False`) distribution of the NEXT observation for the action that maximises the ONLINE
+    network's q-values of the NEXT observation (first maximum) -/
+theorem C18_source_translation_target_selection (next_obs : Obs) :
+    C51Gen.target_dist (actor := actor) (actor_target_q_False := actorT) next_obs =
+      (actorT next_obs).getD (argmaxFirst (actor next_obs)) [] := by
+  unfold C51Gen.target_dist
+  rw [gen_argmaxFirst_eq]
+
+/-- **the loss, over the generated code**: the entry `_dqn_loss` returns for a row is the cross-entropy between
+    the projected target of that row and the ONLINE network's log-distribution (`q=False, log=True`) of the
+    CURRENT observation for the action taken -/
+theorem C18_source_translation_loss_is_cross_entropy (c : Cfg) (g : Rat) (e : C51Gen.Row Obs)
+    (hlog : LogOK actorLog c e) :
+    C51Gen.dqn_loss (actor := actor) (actor_q_False_log_True := actorLog) (actor_target_q_False := actorT)
+        (C51Gen.delta_z0 c.N c.vmax c.vmin) c.N (C51Gen.support0 c.N c.vmax c.vmin) c.vmax c.vmin
+        e.obs e.action e.reward e.next_obs e.done g
+      = crossEntropy c g (sampleOf actor actorLog actorT e) ∧
+    crossEntropy c g (sampleOf actor actorLog actorT e) =
+      - dot (genProject c g e.reward e.done ((actorT e.next_obs).getD (argmaxFirst (actor e.next_obs)) []))
+            ((actorLog e.obs).getD e.action []) := by
+  constructor
+  · rw [gen_delta_z0_eq, gen_support0_eq]
+    exact gen_dqn_loss_eq c g actor actorLog actorT e hlog
+  · rw [genProject_eq]; rfl
+
+/-- **learn, over the generated code**: row by row, the new priorities the generated `learn` returns under PER are
+    the model's (`C18_priority_is_cross_entropy`: cross-entropy with `γ` for the 1-step batch, with `γ ^ n_step`
+    for the n-step batch — each call fed by ITS OWN batch's reward / done / observations —, their sum when
+    `combined_reward`, plus `prior_eps`), none without PER; the returned indices are the 1-step batch's; without
+    PER the returned scalar loss is the batch mean of the same element-wise loss -/
+theorem C18_source_translation_learn (h : Hyper) (hc : h.cfg.Valid) (one nb : List (C51Gen.Row Obs))
+    (hlen : one.length = nb.length)
+    (h1 : ∀ e ∈ one, LogOK actorLog h.cfg e) (hn : ∀ e ∈ nb, LogOK actorLog h.cfg e) :
+    let S := sampleOf actor actorLog actorT
+    let prio := fun e ne per =>
+      C51Gen.learn_ret2 (actor := actor) (actor_q_False_log_True := actorLog) (actor_target_q_False := actorT)
+        h.combined (C51Gen.delta_z0 h.cfg.N h.cfg.vmax h.cfg.vmin) h.gamma h.nStep h.cfg.N h.priorEps
+        (C51Gen.support0 h.cfg.N h.cfg.vmax h.cfg.vmin) h.cfg.vmax h.cfg.vmin e ne per
+    let lossTerm := fun e ne =>
+      C51Gen.learn_ret0 (actor := actor) (actor_q_False_log_True := actorLog) (actor_target_q_False := actorT)
+        h.combined (C51Gen.delta_z0 h.cfg.N h.cfg.vmax h.cfg.vmin) h.gamma h.nStep h.cfg.N
+        (C51Gen.support0 h.cfg.N h.cfg.vmax h.cfg.vmin) h.cfg.vmax h.cfg.vmin e ne false
+    Option.map (List.map some) (learn h true (one.map S) none).priorities = some (one.map fun e => prio e none true) ∧
+    Option.map (List.map some) (learn h true (one.map S) (some (nb.map S))).priorities =
+      some (List.zipWith (fun e ne => prio e (some ne) true) one nb) ∧
+    (∀ e ne, prio e ne false = none) ∧
+    (learn h false (one.map S) none).elementwise.map some = one.map (fun e => lossTerm e none) ∧
+    (learn h false (one.map S) (some (nb.map S))).elementwise.map some =
+      List.zipWith (fun e ne => lossTerm e (some ne)) one nb ∧
+    (∀ (e : C51Gen.Row Obs) ne per, C51Gen.learn_ret1 e ne per = if per || ne.isSome then some e.idxs else none) ∧
+    (∀ per nst, (learn h per (one.map S) nst).idxs =
+      if per || nst.isSome then some (one.map fun e => e.idxs) else none) := by
+  intro S prio lossTerm
+  have key : ∀ nst, (learn h true (one.map S) nst).priorities =
+      some ((learn h true (one.map S) nst).elementwise.map (· + h.priorEps)) := by intro nst; simp [learn]
+  have hl : (one.map S).length = (nb.map S).length := by simpa using hlen
+  obtain ⟨e1, e2⟩ := learn_elementwise_rows h hc.1 true (one.map S) (nb.map S) hl
+  obtain ⟨f1, f2⟩ := learn_elementwise_rows h hc.1 false (one.map S) (nb.map S) hl
+  have hp : ∀ e ne per, LogOK actorLog h.cfg e → (∀ x, ne = some x → LogOK actorLog h.cfg x) →
+      prio e ne per = if per then some (rowLoss h (S e) (ne.map S) + h.priorEps) else none := by
+    intro e ne per he hne
+    simp only [prio, gen_delta_z0_eq, gen_support0_eq]
+    exact gen_learn_ret2_eq actor actorLog actorT h e ne per he hne
+  have hl0 : ∀ e ne, LogOK actorLog h.cfg e → (∀ x, ne = some x → LogOK actorLog h.cfg x) →
+      lossTerm e ne = some (rowLoss h (S e) (ne.map S)) := by
+    intro e ne he hne
+    simp only [lossTerm, gen_delta_z0_eq, gen_support0_eq]
+    exact gen_learn_ret0_eq actor actorLog actorT h e ne he hne
+  refine ⟨?_, ?_, ?_, ?_, ?_, gen_learn_ret1_eq, ?_⟩
+  · rw [key, e1]
+    simp only [Option.map_some, List.map_map]
+    congr 1
+    apply List.map_congr_left
+    intro e he
+    rw [hp e none true (h1 e he) (by intro x hx; cases hx)]
+    rfl
+  · rw [key, e2]
+    simp only [Option.map_some, List.map_zipWith, List.zipWith_map_left, List.zipWith_map_right]
+    congr 1
+    apply zipWith_congr_mem
+    intro e he ne hne
+    rw [hp e (some ne) true (h1 e he) (by intro x hx; cases hx; exact hn ne hne)]
+    rfl
+  · intro e ne
+    simp only [prio]
+    unfold C51Gen.learn_ret2
+    cases ne <;> rfl
+  · rw [f1]
+    simp only [List.map_map]
+    apply List.map_congr_left
+    intro e he
+    rw [hl0 e none (h1 e he) (by intro x hx; cases hx)]
+    rfl
+  · rw [f2]
+    simp only [List.map_zipWith, List.zipWith_map_left, List.zipWith_map_right]
+    apply zipWith_congr_mem
+    intro e he ne hne
+    rw [hl0 e (some ne) (h1 e he) (by intro x hx; cases hx; exact hn ne hne)]
+    rfl
+  · intro per nst
+    simp only [learn, List.map_map]
+    rfl
+
+end nets
+
+/-! non-vacuity of the restated theorems: the generated row function on the examples above, and a row with
+    two actions whose shape hypothesis holds -/
+example : genProject ex5 (1/2) (1/4) 0 exP = [0, 7/16, 7/16, 11/64, 1/64] := by decide +kernel
+example : genProject ex5 (1/2) 1 1 exP = [0, 0, 0, 17/16, 0] ∧ genProject ex5 (1/2) (-7) 1 exP = [17/16, 0, 0, 0, 0] := by
+  decide +kernel
+def exRow : C51Gen.Row Nat := { obs := 0, action := 1, reward := 1/4, next_obs := 1, done := 0, weights := 1, idxs := 7 }
+def exLog : Nat → List (List Rat) := fun _ => [[0, 0, 0, 0, 0], [-1, -2, -3, -4, -5]]
+example : LogOK exLog ex5 exRow := by unfold LogOK; decide
+/-- online q-values prefer action 1, whose TARGET distribution `exP` is projected; the loss is the dot product
+    with the online log-probabilities of the action taken -/
+example : C51Gen.dqn_loss (actor := fun _ => [0, 1]) (actor_q_False_log_True := exLog)
+    (actor_target_q_False := fun _ => [[1, 0, 0, 0, 0], exP])
+    (C51Gen.delta_z0 5 2 (-2)) 5 (C51Gen.support0 5 2 (-2)) 2 (-2) exRow.obs exRow.action exRow.reward
+    exRow.next_obs exRow.done (1/2) = 189/64 := by decide +kernel
+
+end source_translation
 
 end C51
